@@ -67,7 +67,7 @@ let parse_opts fs =
         o_dis_windows = bo e; o_dis_max_stops = bo f; o_dis_max_wait_stop = bo g; o_dis_max_wait_vehicle = bo h;
         o_dis_attributes = bo i; o_dis_start_time = bo j; o_dis_durations = bo k;
         o_f_activation = z_of_string fa; o_f_travel = z_of_string ft; o_f_vehicles_duration = z_of_string fv;
-        o_f_unplanned = z_of_string fu }
+        o_f_unplanned = z_of_string fu; o_dis_dgroups = false }
   | _ -> failwith "bad opt line"
 
 let the_gi : ginput option ref = ref None
@@ -196,6 +196,7 @@ let run_engine (id, lines) =
   let gi = ref None in
   let stops = ref [] and vehs = ref [] and units = ref [] and drows = ref [] and xrows = ref [] in
   let nres = ref 0 and opts = ref None in
+  let dgroups = ref [] and dgopt = ref false in
   let inp = ref None and sols = ref [||] and cur = ref 0 and step = ref 0 in
   let get_inp () = match !inp with Some i -> i | None -> failwith "no build" in
   try
@@ -206,6 +207,8 @@ let run_engine (id, lines) =
         let rec pairs = function a :: b :: t -> (i2n (int_of_string a), b = "1") :: pairs t | _ -> [] in
         initials := !initials @ [(int_of_string v, pairs r)]
     | "nres" :: [k] -> nres := int_of_string k
+    | "dgopt" :: [x] -> dgopt := (x = "1")
+    | "dgroup" :: d :: _ :: ss -> dgroups := !dgroups @ [(List.map (fun x -> i2n (int_of_string x)) ss, z_of_string d)]
     | "user" :: f :: mx :: vl :: tp :: _ ->
         let field =
           (match f with
@@ -223,7 +226,8 @@ let run_engine (id, lines) =
     | "build" :: _ ->
         let i = { in_user = !users; in_stops = List.rev !stops; in_vehicles = List.rev !vehs; in_units = List.rev !units;
                   in_duration = List.rev !drows; in_distance = List.rev !xrows; in_nres = i2n !nres;
-                  in_opts = (match !opts with Some o -> o | None -> failwith "no opt") } in
+                  in_opts = (match !opts with Some o -> { o with o_dis_dgroups = !dgopt } | None -> failwith "no opt");
+                  in_dgroups = !dgroups } in
         inp := Some i;
         let g = { gi_inp = i;
                   gi_groups = List.map (fun ks -> List.map (fun k -> i2n (unit_of_stop i k)) ks) !groups;
